@@ -6,3 +6,4 @@ import MtailVerif.Props.C22
 #print axioms MtailVerif.C22.graphite_shape
 #print axioms MtailVerif.C22.one_record_per_label_set
 #print axioms MtailVerif.C22.one_record_per_label_set_handlers
+#print axioms MtailVerif.C22.export_skeletons
